@@ -26,8 +26,8 @@ HmacRfc2104(T, h, k, m) ==
   LET B == HashBlockLen(h)
       k0 == IF Len(k) > B THEN Hash(T, h, k) ELSE k
       kp == k0 \o Zeros(B - Len(k0))
-      ipad == [i \in 1..B |-> kp[i] ^^ 54]       \* 0x36
-      opad == [i \in 1..B |-> kp[i] ^^ 92]       \* 0x5C
+      ipad == Strict([i \in 1..B |-> kp[i] ^^ 54])       \* 0x36
+      opad == Strict([i \in 1..B |-> kp[i] ^^ 92])       \* 0x5C
   IN Hash(T, h, opad \o Hash(T, h, ipad \o m))
 
 \* ---- RFC 5246 section 5 (same in RFC 2246): P_hash
